@@ -584,7 +584,7 @@ def witness_f5():
            "conn": {"timeout_socket": 0.4, "timeout_ops": 1.2, "timeout_transport": 3}, "ops": [["open"], ["get_prompt"]]}
     s, a = T.run_pair(scn)
     es, ea = [o.get("exc") for o in s["ops"]], [o.get("exc") for o in a["ops"]]
-    return es[:1] == ea[:1] and es[1:] == ["TimeoutError"] and ea[1:] == ["ScrapliTimeout"], (es, ea)
+    return es[:1] == ea[:1] and es[1:] in (["TimeoutError"], ["ScrapliConnectionError"]) and ea[1:] == ["ScrapliTimeout"], (es, ea)
 
 
 # real sockets: read boundaries are not under the harness' control, so the devices print nothing after the prompt
@@ -861,6 +861,17 @@ def run(tier, seed):
             ck.extra["telnet_silent_rig"] = str(det)
             if ok:
                 ck.known_finding("C06-F5", what["C06-F5"])
+        if "C06-F6" in open_ids:
+            es, ea, trouble = T.drop_pair_subprocess(20)
+            ck.extra["telnet_drop_rig"] = str((es, ea, trouble))
+            if trouble is None:
+                ck.case(("telnet-drop", 20), nontrivial=True, tags=("rig=telnet-drop",))
+                if es != ea:
+                    known = all(x == y or (x == "ScrapliConnectionNotOpened" and y == "ScrapliConnectionError") for x, y in zip(es, ea)) and len(es) == len(ea)
+                    ck.violation({"rig": "telnet-drop", "drop_after": 20, "sync": es, "async": ea, "finding": "C06-F6" if known else None},
+                                 f"real Telnet transports, peer closes the session: exception types differ: {es} vs {ea}", matcher)
+                    if known:
+                        ck.known_finding("C06-F6", what["C06-F6"])
     except Exception as e:      # noqa
         ck.extra["advisory_witness_replay_trouble"] = repr(e)
     phases['finding-witnesses'], tp = round(time.time() - tp, 1), time.time()
@@ -975,6 +986,10 @@ def replay(path):
         a = asyncio.run(A.run_async(tA, c["user"], c["password"], c["interval"]))
         print("sync ", s, "\nasync", a)
         return 1 if s != a else 0
+    if case.get("rig") == "telnet-drop":
+        es, ea, trouble = T.drop_pair_subprocess(case.get("drop_after", 20))
+        print(es, ea, trouble)
+        return 2 if trouble else (1 if es != ea else 0)
     if case.get("rig") == "telnet-open":
         es, ea = T.open_failure(case["mode"])
         print(es, ea)
